@@ -220,7 +220,17 @@ static int _GD_Advance(struct gd_siedata *f, size_t size)
     }
   }
 
-  /* handle newly read record */
+  /* handle newly read record -- it holds the number of the last sample it
+   * covers (-1 in the header record): any other negative number, or one with
+   * no successor, can only come from a corrupt file, and would overflow the
+   * arithmetic done on it */
+  if ((int64_t)FIXSEX(f->swap, f->d[0]) < -1 ||
+      (int64_t)FIXSEX(f->swap, f->d[0]) == GD_INT64_MAX)
+  {
+    errno = EINVAL;
+    dreturn("%i", -2);
+    return -2;
+  }
   f->s = FIXSEX(f->swap, f->d[0]);
   f->p = p;
   f->r++;
